@@ -1,0 +1,36 @@
+//go:build verif
+
+package keyper
+
+import (
+	"context"
+
+	"github.com/shutter-network/rolling-shutter/rolling-shutter/keyper/kprconfig"
+)
+
+// VerifEonPubKeyHandler gives the verification harness in /verif access to the unexported
+// eonPubKeyHandler. Add-only, compiled only with -tags verif.
+type VerifEonPubKeyHandler struct {
+	pkh *eonPubKeyHandler
+}
+
+// VerifNewEonPubKeyHandler builds the eon public key handler the way a KeyperCore does: New
+// applies the option functions, initOptions validates them and takes the database pool from
+// them, getServices calls newEonPubKeyHandler. The options must contain WithDBPool and
+// WithMessaging (otherwise New would start a real P2P node).
+func VerifNewEonPubKeyHandler(config *kprconfig.Config, options ...Option) (*VerifEonPubKeyHandler, error) {
+	kpr, err := New(config, nil, options...)
+	if err != nil {
+		return nil, err
+	}
+	if err := validateOptions(kpr.opts); err != nil {
+		return nil, err
+	}
+	kpr.dbpool = kpr.opts.dbpool
+	return &VerifEonPubKeyHandler{pkh: newEonPubKeyHandler(kpr)}, nil
+}
+
+// QueryAndHandleNewEonPubKeys is the body of one polling tick of eonPubKeyHandler.loop.
+func (v *VerifEonPubKeyHandler) QueryAndHandleNewEonPubKeys(ctx context.Context) error {
+	return v.pkh.queryAndHandleNewEonPubKeys(ctx)
+}
